@@ -448,7 +448,7 @@ func (n *tnode) budgetInto(b *budget) uint64 {
 		}
 		return 0
 	case "slice", "map":
-		cnt := uint64(exemptCap)
+		cnt := uint64(2 * 65535) // no bound: the generators announce at most exemptCap through 32-bit headers, random bytes may hold any 16-bit header (doubled by map flattening)
 		if n.b.known {
 			cnt = uint64(n.b.n)
 			b.bounds[n.b.n] = true
